@@ -251,7 +251,49 @@ def w_c09(seed):
     return {"found": False, "note": f"{len(C09_PROGRAMS)} programs (shadowing, where-clauses, conditionals, NaN comparisons, lists, structs, strings, recursion, function values) evaluate to their expected values"}
 
 
-FINDERS = {"C09": w_c09, "C18": w_c18, "C06": w_c06, "C02": lambda s: w_c06(s, want_c02=True), "C11": w_c11, "C12": w_c12, "C21": w_c21, "C20": w_c20}
+# ---------------------------------------------------------------- C10 / C04 / C05: value tables (expected results follow from the
+# documented precedence table / the statement; every entry evaluates as stated on the unchanged tree)
+def _table(cases, what, note):
+    got, raw = session(["use prelude"] + [c for c, _ in cases])
+    for i, (prog, want) in enumerate(cases):
+        r = got.get(i + 1, [])
+        if want == "ERR":
+            if not any(k == "ERR" for k, _ in r):
+                return {"found": True, "kind": "session", "what": f"{what}: `{prog}` is outside the grammar and must be rejected, but it is accepted: {r[:2]}", "input": "use prelude\n%%\n" + prog, "output": str(r)[:400], "cmd": f"{BIN} session", "stdin": "use prelude\n%%\n" + prog}
+            continue
+        vals = [v.strip() for k, v in r if k in ("OK", "PRINT")]
+        if want not in vals:
+            return {"found": True, "kind": "session", "what": f"{what}: `{prog}` gives {vals or r[:1]} but must give {want}", "input": "use prelude\n%%\n" + prog, "output": str(r)[:400], "cmd": f"{BIN} session", "stdin": "use prelude\n%%\n" + prog}
+    return {"found": False, "note": f"{len(cases)} {note}"}
+
+
+C10_CASES = [("2^3^2", "512"), ("-2^2", "-4"), ("2^-2", "0.25"), ("6 / 2 3", "1"), ("12 per 2 * 3", "18"), ("12 / 2 per 3", "18"), ("2 * 3 per 6", "1"),
+             ("10 - 3 - 2", "5"), ("2 + 3 * 4", "14"), ("!true || true", "true"), ("true || false && false", "true"),
+             ("if true then 16 else 81 |> sqrt", "4"), ("if 1 < 2; then 10 else 20", "ERR"), ("if 1 < 2 then 10; else 20", "ERR"), ("if true then 16 |> sqrt else 81", "ERR"),
+             ("3!^2", "36"), ("2^3!", "64"), ("2²!", "24"), ("-3!", "-6"), ("2 3^2", "18"), ("if true then 1 else 2 + 1", "1"), ("1 + 2 < 4 && true", "true"),
+             ("!false && false", "false"), ("2 m per 4 s * 2", "1 m/s"), ("8 / 2 / 2", "2"), ("2^2^-1", "1.41421"), ("- 2 3", "-6"), ("100 cm -> m -> cm", "100 cm"),
+             ("if false then 1 else if false then 2 else 3", "3"), ("2⁻¹", "0.5"), ("(2 + 3) 2", "10"), ("1 + 1 == 2 || false", "true"), ("4 |> sqrt |> sqrt", "1.41421"),
+             ("2 ^ 3 per 4", "2"), ("-2!", "-2"), ("3 - -2", "5"), ("2 × 3 ÷ 6", "1")]
+C04_CASES = [("(10 m -> 2 m) -> m", "10 m"), ("6 hours -> 45 min", "8 × 45 min"), ("(0 m -> 2 m) -> cm", "0 cm"), ("1 km -> m", "1000 m"),
+             ("let shifts = 6 hours -> 45 min\nshifts -> min", "360 min"), ("2 km^(2/3) -> m^(2/3)", "200 m^(2/3)"), ("1 mile -> km -> mile", "1 mi"), ("1 inch -> cm", "2.54 cm"),
+             ("5 m * 2 cm -> m*cm", "10 m·cm"), ("2 kg m / s^2 -> N", "2 N"), ("-(1 km -> m) + 0 m", "-1000 m"), ("100 cm -> m -> cm", "100 cm")]
+C05_CASES = [("10 N / 5 Pa -> N/Pa", "2 N/Pa"), ("120 J / 60 W -> J/W", "2 J/W"), ("10 N / 5 Pa", "2 m²"), ("1 J / 1 s", "1 W"), ("print(10 N / 5 Pa -> N/Pa)", "2 N/Pa"),
+             ("\"{10 N / 5 Pa -> N/Pa}\"", "\"2 N/Pa\""), ("1 km / 1 m", "1000"), ("5 m * 2 cm -> m*cm", "10 m·cm"), ("3 pN * 2 nm -> pN*nm", "6 pN·nm")]
+
+
+def w_c10(seed):
+    return _table(C10_CASES, "parsing", "expressions decided by precedence / associativity evaluate as the documented table prescribes")
+
+
+def w_c04(seed):
+    return _table(C04_CASES, "conversion", "conversions are displayed in exactly the requested unit with the expected magnitude")
+
+
+def w_c05(seed):
+    return _table(C05_CASES, "simplification", "displayed / printed / interpolated values keep explicitly chosen units and simplify the others")
+
+
+FINDERS = {"C09": w_c09, "C18": w_c18, "C06": w_c06, "C02": lambda s: w_c06(s, want_c02=True), "C11": w_c11, "C12": w_c12, "C21": w_c21, "C20": w_c20, "C10": w_c10, "C04": w_c04, "C05": w_c05}
 
 
 def find(prop, obligation, tier):
